@@ -5,14 +5,17 @@
   invalidation), `dpWrite` (DPFSLevel3.write_data), `updateHashes` (Partition/DISA/DIFF._update_hashes, _update_cmac),
   `genCmac` (cmac.py) in PyctrModel/Save/Container.lean.  SHA-256 is `H`, AES-CMAC is `mac`.
 
-  Proved here: position bookkeeping, the read-only error, the no-op cases, and that the descriptor / header / CMAC update
+  Proved here: position bookkeeping, the read-only error, the no-op cases, that the descriptor / header / CMAC update
   leaves a file whose table-hash check succeeds on re-open (DIFF: hash of the descriptor; DISA: hash of the WHOLE active
-  table with only this partition's descriptor replaced).  The hash-path statement ("every written block verifies against
-  the updated levels") and the frame statement are decided by the correspondence check together with the independent
-  reference reader; see DESIGN.md §C18 for what is not yet a theorem.
+  table with only this partition's descriptor replaced), the DPFS level-3 write (scatter to the active copies + frame), the
+  hash path ("every touched block and every block that verified before has an intact chain to the updated master hashes")
+  first on levels as arrays and then, through a refinement theorem, on the container model, with the file frame.
+  Not a theorem: that a RE-OPENED container parses back to the same state (decided by the correspondence check with the
+  independent reference reader), and soundness of the in-session verification caches after a write.
 -/
 import Proofs.SaveWrite
 import Proofs.SaveHashPath
+import Proofs.SaveWriteRefines
 namespace Pyctr.C18
 open Pyctr Pyctr.Save
 
@@ -112,5 +115,46 @@ theorem C18_view (H : Bytes → Bytes) (bsOf : Nat → Nat) (hbs : ∀ i, 0 < bs
     (∀ b, b * bsOf 3 < (L' 3).length → chainOK H bsOf master' L' 3 b) ∧
       verifiedView H L' bsOf master' = overlay (verifiedView H L bsOf master) offset data :=
   absWrite_view H bsOf hbs hH hnz offset data L master L' master' hlen hin hgeo hall h
+
+/-- `DPFSLevel3.write_data`: a non-empty write inside the level-3 view puts every byte into the copy that the level-2 bit of
+    its block selects (`scatter`), so the view becomes the old view with the data laid over it; nothing else in the partition
+    window and nothing outside it changes -/
+theorem C18_dpfs_write (w0 : Win) (dp : Dp) (hwf : DpWF w0.bytes dp) (offset : Nat) (data : Bytes) (hne : data ≠ [])
+    (hin : offset + data.length ≤ dp.lv3.size) :
+    ∃ w', dpWrite w0 dp offset data = .ok (data.length, w') ∧ w'.off = w0.off ∧ w'.size = w0.size ∧ w'.F.length = w0.F.length ∧
+      (∀ z, (z < w0.off ∨ w0.off + w0.size ≤ z) → w'.F[z]? = w0.F[z]?) ∧
+      (∀ x, offset ≤ x → x < offset + data.length → w'.bytes[scatter dp x]? = data[x - offset]?) ∧
+      (∀ y, (∀ x, offset ≤ x → x < offset + data.length → y ≠ scatter dp x) → w'.bytes[y]? = w0.bytes[y]?) :=
+  dpWrite_spec w0 dp hwf offset data hne hin
+
+/-- refinement: on a regular geometry (`geomOK`, decidable, evaluated by the driver on every write of every run) the model's
+    `IVFCHashTree.write_data` — DPFS copies, sequential re-read, recursion up the levels — computes on the levels of the
+    partition exactly what `absWrite` computes, and leaves the file outside the partition window alone -/
+theorem C18_refines (H : Bytes → Bytes) (t : Tree) (hH : ∀ x, (H x).length = 0x20) (idx : Nat) (hidx : idx < 4) (offset : Nat)
+    (data : Bytes) (s s' : WState) (hg : geomOK s.w.bytes t s.master = true) (hne : data ≠ [])
+    (hin : offset + data.length ≤ (t.level idx).size) (h : writeData H t idx offset data s = .ok s') :
+    absWrite H (fun i => (t.level i).bs) idx offset data (Lof s.w.bytes t, s.master) = .ok (Lof s'.w.bytes t, s'.master) ∧
+      s'.w.off = s.w.off ∧ s'.w.size = s.w.size ∧ s'.w.F.length = s.w.F.length ∧
+      (∀ z, (z < s.w.off ∨ s.w.off + s.w.size ≤ z) → s'.w.F[z]? = s.w.F[z]?) := by
+  obtain ⟨a, b, c, d, e, _⟩ := writeData_refines H t hH idx hidx offset data s s' (geomOK_spec _ _ _ hg) hne hin h
+  exact ⟨a, b, c, d, e⟩
+
+/-- **hash path and frame on the container model** (`IVFCLevel4Reader.write` = clamp, `write_data`, descriptor / header / CMAC
+    update).  `Bd` separates the header, the tables and the re-serialised descriptor (below) from the partition (at or above). -/
+theorem C18_write_hash_path (H : Bytes → Bytes) (mac : Bytes → Bytes → Bytes) (cm : Option CmacScheme) (c : Cont) (pi : Nat)
+    (p : PartSt) (hp : c.parts[pi]? = some p) (data : Bytes) (n : Nat) (c' : Cont)
+    (hH : ∀ x, (H x).length = 0x20) (hmac : ∀ k x, (mac k x).length = 0x10) (hnz : ¬ ZeroHash H) (hh : c.header.length = 0x100)
+    (hg : geomOK (p.P c.F) p.tree p.master = true) (hne : writeClamp p data ≠ [])
+    (Bd : Nat) (hB1 : 0x200 ≤ Bd) (hB2 : Bd ≤ p.pOff) (hB3 : p.pOff ≤ c.F.length)
+    (hdesc : ∀ m pd, partdescToBytes ⟨p.difi, p.ivfc, p.dpfs, m⟩ p.descSize = some pd → c.tableOff + p.descOff + pd.length ≤ Bd)
+    (h : lv4Write H mac cm c pi data = .ok (n, c')) :
+    ∃ p', c'.parts[pi]? = some p' ∧ p'.tree = p.tree ∧ p'.pOff = p.pOff ∧ p'.pSize = p.pSize ∧
+      Lof (p'.P c'.F) p.tree 3 = overlay (Lof (p.P c.F) p.tree 3) p.seek (writeClamp p data) ∧
+      (∀ b, b * (p.tree.level 3).bs < (Lof (p.P c.F) p.tree 3).length →
+        (touched p.seek (writeClamp p data).length (p.tree.level 3).bs b ∨ chainOK H p.bsOf p.master (Lof (p.P c.F) p.tree) 3 b) →
+        chainOK H p.bsOf p'.master (Lof (p'.P c'.F) p.tree) 3 b) ∧
+      c'.F.length = c.F.length ∧
+      (∀ z, Bd ≤ z → (z < p.pOff ∨ p.pOff + p.pSize ≤ z) → c'.F[z]? = c.F[z]?) :=
+  lv4Write_hash_path H mac cm c pi p hp data n c' hH hmac hnz hh hg hne Bd hB1 hB2 hB3 hdesc h
 
 end Pyctr.C18
